@@ -434,7 +434,18 @@ func (l *InclusiveRanges) AppendUnique(start, end, step int) {
 	// 1-100x1 and we are appending 50-150x1. Should be easy
 	// enough to just know we can Append(101,150,1)
 
-	for ; pred(); subEnd += step {
+	// The counter may not wrap around when the range ends at the
+	// largest (or smallest) int: the loop would never end
+	wrapped := false
+	advance := func() {
+		next := subEnd + step
+		if (step > 0) != (next > subEnd) {
+			wrapped = true
+		}
+		subEnd = next
+	}
+
+	for ; !wrapped && pred(); advance() {
 		if !l.Contains(subEnd) {
 			// Is a unique value in the range
 			last = subEnd
